@@ -8,7 +8,10 @@ import Kio.Model.TablePreds
 import Kio.Generated.Info
 import Kio.Model.Phantom
 import Kio.Generated.Bounds
+import Kio.Gen.DefSpec
 import Kio.Gen.Wire
+import Kio.Proofs.GenSpec
+import Kio.Model.Typing
 /-!
 Line-protocol driver (DESIGN §4.2): one request per line on stdin, one reply per line on stdout.
 Run with `lake env lean --run Driver.lean`.
@@ -184,6 +187,26 @@ def step (st : St) (line : String) : St × String :=
     | some t, some v =>
       (st, s!"ok {if isInstance Generated.bounds t v then 1 else 0} {repr (construct Generated.bounds t v)}")
     | _, _ => (st, "bad-op")
+  | "gencheck" :: toks =>
+    -- model-level checks on a definition: statements of C16 and coherence of every generated class
+    match Gen.parseMsgDef toks with
+    | some d =>
+      let b := Generated.tables.builtins
+      let res := (Gen.versionsOf d).map (fun v =>
+        let agrees := Gen.specAgrees d b v
+        let wf := match Gen.module d b v with
+          | .ok gs => gs.all (fun g => g.schema.wf st.env)
+          | .error _ => true
+        s!"v{v}:{agrees}:{wf}")
+      (st, "ok " ++ " ".intercalate res)
+    | none => (st, "bad-def")
+  | "defspec" :: ver :: toks =>
+    match Gen.parseMsgDef toks with
+    | some d =>
+      let vs := if ver = "all" then Gen.versionsOf d else (match ver.toNat? with | some v => [v] | none => [])
+      let pkg := Gen.strOfChars (Gen.packageName Generated.tables.builtins d)
+      (st, s!"ok {pkg} ## " ++ " ## ".intercalate (vs.map (fun v => s!"v{v} {Gen.renderDefSpec d Generated.tables.builtins v}")))
+    | none => (st, "bad-def")
   | "gen" :: ver :: toks =>
     -- gen <version|all> <definition tokens…>
     match Gen.parseMsgDef toks with
